@@ -1359,12 +1359,19 @@ class InterpStmts:
             if fid in s2.frames and fid != st.cur:
                 s2.frames[fid] = fr
         if env_override:
-            env, parent, mod = s2.frames[s2.cur]
-            env = dict(env)
-            for k, v in env_override.items():
-                if k in env:
-                    env[k] = v
-            s2.frames[s2.cur] = (env, parent, mod)
+            # the specification variables of a call site (parameters, mutated closure variables) live in spec frames that did not
+            # exist in the past state: every such frame gets the pre-call values, also when old() occurs inside a quantifier's lambda
+            # (whose own frame is the current one)
+            for fid in list(s2.frames):
+                if fid in past.frames and fid != s2.cur:
+                    continue
+                env, parent, mod = s2.frames[fid]
+                if any(k in env for k in env_override):
+                    env = dict(env)
+                    for k, v in env_override.items():
+                        if k in env:
+                            env[k] = v
+                    s2.frames[fid] = (env, parent, mod)
         v, _ = self.eval1(arg, s2)
         return v
 
@@ -1663,6 +1670,7 @@ class InterpStmts:
                 s2.pc.append(w)
         # 5. mutated container params
         env_post = dict(env)
+        env_old = dict(env)
         for name in (c.get("mutates") or []):
             v = env.get(name)
             if not isinstance(v, SV) or v.origin is None:
@@ -1670,6 +1678,7 @@ class InterpStmts:
                 v = self.resolve_name(s2.copy(), name) if not isinstance(v, SV) else v
             if not isinstance(v, SV) or v.origin is None:
                 raise Unsupported("mutated parameter %s of %s has no home" % (name, label))
+            env_old[name] = v           # its value before the call: what old(...) in the callee's postcondition refers to
             newv = SV(v.kind, tfresh(v.kind, name), v.origin)
             s2 = self.store(s2, v.origin, newv)
             from .verify import valid_tree
@@ -1679,7 +1688,7 @@ class InterpStmts:
             env_post[name] = newv
         # 6. postconditions
         env_post["result"] = result
-        post = [self.eval_spec(cl, s2, env_post, callee=f, old_state=pre, old_env=env) for cl in (c.get("ensures") or [])]
+        post = [self.eval_spec(cl, s2, env_post, callee=f, old_state=pre, old_env=env_old) for cl in (c.get("ensures") or [])]
         if st.pure:
             # a contract call inside a specification / model context: the caller only keeps the value, so the callee's
             # postcondition is recorded as a definitional fact about the fresh result (guarded by its precondition)
